@@ -279,6 +279,31 @@ func runC08(c *Ctx, kind string, seed uint64) {
 			c.Add("finished_batches_whose_opening_message_was_re-posted", 1)
 		}
 	}
+	// very last: a proposal which the round's state machine accepts but which the node cannot expand (a baked
+	// range outside the validator list) - it is rejected AFTER the round's action ran - followed by an ordinary
+	// proposal nobody answers: what the round makes of the second one may not depend on whether the node
+	// process lived through the first one or was restarted in between
+	for _, rd := range rounds {
+		ce := &Ceremony{W: w, N: n, T: t, Round: rd}
+		if !ce.AllIn(StIdle) {
+			c.Add("rounds_not_idle_before_the_unexpandable_proposal", 1)
+			continue
+		}
+		p := r.Intn(n)
+		bad := requests.SigningBatchProposalStartRequest{BatchID: "unexpandable-" + rd[:6], ParticipantId: p, CreatedAt: now(),
+			SigningTasks: []requests.SigningTask{{MessageID: "range", RangeStart: 1 << 30, RangeEnd: 1<<30 + 2}}}
+		_ = w.Board.Send(world.SignMsg(w.Nodes[p], rd, EvSigningStart, mkReq(bad), ""))
+		w.Run(policy, 2000)
+		q := (p + 1) % n
+		good := requests.SigningBatchProposalStartRequest{BatchID: "after-unexpandable-" + rd[:6], ParticipantId: q, CreatedAt: now(),
+			SigningTasks: []requests.SigningTask{{MessageID: "after", File: "after", Payload: r.Bytes(12)}}}
+		_ = w.Board.Send(world.SignMsg(w.Nodes[q], rd, EvSigningStart, mkReq(good), ""))
+		w.OpFilter = func(nd *world.Node, op *types.Operation) bool { return string(op.Type) != OpSigning }
+		w.Run(policy, 2000)
+		w.OpFilter = nil
+		c.Add("proposals_rejected_after_the_rounds_action_then_an_ordinary_one", 1)
+		c.Note("%s: after unexpandable+ordinary proposal round %s is %v", kind, trunc(rd, 6), ce.States())
+	}
 	w.AfterStep = nil
 	c.Add("same_prefix_agreement_checks", agreeChecks)
 	if d := time.Until(ahead); !ahead.IsZero() && d > 0 {
